@@ -204,6 +204,7 @@ def run(ctx):
       'previous-wraps': 'the first event is compared with the last one, so what is written for step 0 depends on how the sequence ends: rendering then extracting no longer returns the events',
       'neg-zero-slice': 'an empty remainder becomes the whole list'})
   C09.velocity(ctx)     # extraction re-bins the velocity the renderer wrote: the two maps must be inverse on bin representatives
+  C07.parameters_reach(ctx)      # the limits and the instrument given to a constructor are the ones extraction works with
   C07.roll_pitch_range(ctx, 'EXTRACT/roll-pitch-range')
   C07.roll_gap_index(ctx, 'EXTRACT/roll-gap-index')
   C07.velocity_onsets(ctx, 'EXTRACT/velocity-onsets-only')
